@@ -10,6 +10,7 @@ CONSTANTS
  DevKeySites = FALSE
  DevProcForgets = FALSE
  LargeN = 16
+ DevSkipVSWhenNothingToOptimise = FALSE
 INVARIANT Tagged
 INVARIANT UserTemplateWins
 INVARIANT UserVolumeWins
@@ -18,6 +19,7 @@ INVARIANT KeySitesAgree
 INVARIANT GeneratedOnce
 INVARIANT OneTemplatePerKey
 INVARIANT SizeBelongs
+INVARIANT VSConstructed
 INVARIANT DomainOKOnce
 PROPERTY UserSticks
 CHECK_DEADLOCK FALSE
